@@ -94,9 +94,16 @@ struct Rig {
     Teakra::CoreTiming ct;
     Teakra::Timer t[2]{{ct}, {ct}};
     u64 irqs[2] = {0, 0};
+    // what the handler itself sees: the interrupt is raised when the counter HAS gone from 1 to 0, so inside the handler
+    // the counter (and, with MU set, its mirror) read 0
+    u64 irq_saw_nonzero[2] = {0, 0};
     Rig() {
         for (int i = 0; i < 2; ++i)
-            t[i].SetInterruptHandler([this, i] { ++irqs[i]; });
+            t[i].SetInterruptHandler([this, i] {
+                ++irqs[i];
+                if (t[i].counter != 0 || (t[i].update_mmio && (t[i].counter_low != 0 || t[i].counter_high != 0)))
+                    ++irq_saw_nonzero[i];
+            });
     }
 };
 
@@ -170,7 +177,9 @@ int main(int argc, char** argv) {
         std::string opname;
         auto check_all = [&](const std::string& opkey) {
             for (int i = 0; i < 2 && !bad; ++i) {
-                if (!same2(A.t[i], A.irqs[i], B.t[i], B.irqs[i]))
+                if (A.irq_saw_nonzero[i] || B.irq_saw_nonzero[i])
+                    fail("irq:counter-not-zero-in-handler:" + opname, "the interrupt handler ran while the counter (or its mirror) did not read 0 yet", i);
+                else if (!same2(A.t[i], A.irqs[i], B.t[i], B.irqs[i]))
                     fail("twin:" + opname, "Skip(k) instance differs from k x Tick() instance after " + opkey, i);
                 else if (!same(B.t[i], B.irqs[i], M[i]))
                     fail("model:" + opname, "real timer differs from model after " + opkey, i);
@@ -247,7 +256,12 @@ int main(int argc, char** argv) {
                 ctx.count("op_tick", n);
             } else { // fast-forward
                 // the horizon each real timer reports must not skip over an interrupt (model knows)
-                u64 hz[2] = {A.t[0].GetMaxSkip(), A.t[1].GetMaxSkip()};
+                // one skip in three goes straight to Timer::Skip with the horizon asked from the TWIN (which is in the same
+                // state): nothing has queried the skipping instance since its last change - GetMaxSkip() is const and
+                // Skip() may not depend on it having been called
+                const bool direct = g.chance(1, 3);
+                Rig& Hsrc = direct ? B : A;
+                u64 hz[2] = {Hsrc.t[0].GetMaxSkip(), Hsrc.t[1].GetMaxSkip()};
                 for (int q = 0; q < 2 && !bad; ++q) {
                     u64 probe = hz[q];
                     if (probe != Teakra::CoreTiming::Callbacks::Infinity && M[q].irq_within(probe)) {
@@ -279,7 +293,15 @@ int main(int argc, char** argv) {
                 log(fmt("skip max=%" PRIu64 " (h0=%" PRIu64 " h1=%" PRIu64 ")", maxk, hz[0], hz[1]));
                 opkey = fmt("skip:%s/%s:counter=%s/%s:k=%s", mode_name(M[0].mode), mode_name(M[1].mode),
                             cclass(M[0].counter), cclass(M[1].counter), "?");
-                rr = Classify([&] { k = A.ct.Skip(maxk); });
+                if (direct) {
+                    k = std::min(maxk, h);
+                    rr = Classify([&] {
+                        A.t[0].Skip(k);
+                        A.t[1].Skip(k);
+                    });
+                    ctx.count("direct_skips_with_twin_horizon");
+                } else
+                    rr = Classify([&] { k = A.ct.Skip(maxk); });
                 opkey = fmt("skip:%s/%s:counter=%s/%s:k=%s", mode_name(M[0].mode), mode_name(M[1].mode),
                             cclass(M[0].counter), cclass(M[1].counter), k == 0 ? "0" : "n");
                 hist.back() += fmt(" -> k=%" PRIu64, k);
